@@ -13,7 +13,7 @@ import (
 // to a pass of waitOrTerminate (the model switches on this fact).
 
 func init() {
-	register([]string{"pkg/controllers/disruption"}, func(g *gen) {
+	register([]string{"pkg/controllers/disruption", "pkg/controllers/state"}, func(g *gen) {
 		const pkg = "pkg/controllers/disruption"
 		g.natConst("OrchQueue", pkg, "minRetryDuration", "minRetryDurationNs")
 		g.natConst("OrchQueue", pkg, "maxRetryDuration", "maxRetryDurationNs")
@@ -32,7 +32,69 @@ func init() {
 		g.callSeq("OrchQueue", pkg, "NewCandidate", "newCandidateOrder",
 			[]string{"HasAny", "ValidateNodeDisruptable", "ValidatePodsDisruptable"})
 		c08TimeoutMode(g)
+		// the per-candidate loops of the rollback / enqueue bookkeeping visit EVERY listed provider id (the model folds
+		// over all live candidates): no statement inside them leaves the loop or the function early
+		c08LoopShape(g, "pkg/controllers/state", "Cluster.MarkForDeletion", "markForDeletion")
+		c08LoopShape(g, "pkg/controllers/state", "Cluster.UnmarkForDeletion", "unmarkForDeletion")
+		c08LoopShape(g, pkg, "Queue.CompleteCommand", "completeCommand")
 	})
+}
+
+// c08LoopShape emits, for one function, the number of `for … range` loops in its body (function literals excluded) and
+// the number of statements inside those loops that end the iteration over the remaining elements early: `return`,
+// `break` / `goto` (a `break` that only leaves a nested switch/select/for counts too: conservative), calls of panic /
+// os.Exit / log.Fatal*. `continue` does not count: the remaining elements are still visited.
+func c08LoopShape(g *gen, pkgPath, fn, lean string) {
+	_, fd := g.findFunc(pkgPath, fn)
+	if fd == nil {
+		return
+	}
+	loops, exits := 0, 0
+	var walk func(n ast.Node, inLoop bool)
+	walk = func(n ast.Node, inLoop bool) {
+		ast.Inspect(n, func(x ast.Node) bool {
+			switch v := x.(type) {
+			case nil:
+				return false
+			case *ast.FuncLit:
+				return false // another function: its returns do not leave the loop
+			case *ast.RangeStmt:
+				if x == n {
+					return true
+				}
+				loops++
+				walk(v.Body, true)
+				return false
+			case *ast.ForStmt:
+				if x == n {
+					return true
+				}
+				loops++
+				walk(v.Body, true)
+				return false
+			case *ast.ReturnStmt:
+				if inLoop {
+					exits++
+				}
+			case *ast.BranchStmt:
+				if inLoop && (v.Tok == token.BREAK || v.Tok == token.GOTO) {
+					exits++
+				}
+			case *ast.CallExpr:
+				if inLoop {
+					switch name := exprString(v.Fun); {
+					case name == "panic", name == "os.Exit", strings.HasPrefix(name, "log.Fatal"):
+						exits++
+					}
+				}
+			}
+			return true
+		})
+	}
+	walk(fd.Body, false)
+	b := g.out("OrchQueue")
+	fmt.Fprintf(b, "/-- `%s.%s` (%s): number of for/range loops in the body (function literals excluded) -/\ndef %sLoops : Nat := %d\n\n", pkgPath, fn, g.pos(fd.Pos()), lean, loops)
+	fmt.Fprintf(b, "/-- `%s.%s`: statements inside those loops that leave the loop or the function before every element has been visited (return / break / goto / panic) -/\ndef %sLoopExits : Nat := %d\n\n", pkgPath, fn, lean, exits)
 }
 
 func containsCall(n ast.Node, suffix string) bool {
